@@ -57,7 +57,7 @@ def build_case(cid, rng, selector, unimock=False, force_async=False, no_send=Fal
                 t.supers.append("::core::marker::Sync")
     rng.shuffle(opts)
     targs = t.args_text()
-    L = tg.support_for(t.methods)
+    L = tg.support_for(t.methods, t)
     if rng.random() < 0.5:
         # the real conversion traits are imported in the invoking scope (as they are wherever the user writes
         # `impl Borrow<dyn Tr> for App`): method-call syntax in the generated delegation then sees their blanket impls too
